@@ -48,6 +48,7 @@ type cserver struct {
 	closed      bool
 	capsInLogin bool
 	wg          sync.WaitGroup
+	exists      int
 }
 
 const srvCaps = "IMAP4rev1 LITERAL- ENABLE UTF8=ACCEPT IDLE MOVE UIDPLUS ESEARCH"
@@ -68,6 +69,9 @@ func (s *cserver) respond(c scmd) {
 			s.write(t + " OK logged in\r\n")
 		}
 	case "SELECT", "EXAMINE":
+		s.mu.Lock()
+		s.exists = 3
+		s.mu.Unlock()
 		s.write("* 3 EXISTS\r\n* FLAGS (\\Seen)\r\n* OK [PERMANENTFLAGS (\\Seen \\*)] p\r\n* OK [UIDVALIDITY 1] v\r\n* OK [UIDNEXT 9] n\r\n" + t + " OK [READ-WRITE] selected\r\n")
 	case "STATUS":
 		f := strings.Fields(c.line)
@@ -89,7 +93,14 @@ func (s *cserver) respond(c scmd) {
 			s.write("* SEARCH 1 3\r\n" + t + " OK done\r\n")
 		}
 	case "EXPUNGE", "UID EXPUNGE":
-		s.write(t + " OK nothing to expunge\r\n")
+		s.mu.Lock()
+		out := ""
+		if s.exists > 1 {
+			s.exists--
+			out = "* 1 EXPUNGE\r\n"
+		}
+		s.mu.Unlock()
+		s.write(out + t + " OK expunged\r\n")
 	case "APPEND":
 		s.write(t + " OK [APPENDUID 1 77] done\r\n")
 	case "COPY", "UID COPY":
@@ -213,7 +224,23 @@ func (s *cserver) responder() {
 		i := s.rng.Intn(len(s.pending))
 		c := s.pending[i]
 		s.pending = append(s.pending[:i], s.pending[i+1:]...)
+		// unilateral mailbox updates in between (once a mailbox is selected)
+		push := ""
+		if s.exists > 0 {
+			switch s.rng.Intn(6) {
+			case 0:
+				s.exists++
+				push = fmt.Sprintf("* %d EXISTS\r\n", s.exists)
+			case 1:
+				push = fmt.Sprintf("* FLAGS (\\Seen \\Deleted kw%d)\r\n", s.rng.Intn(9))
+			case 2:
+				push = "* OK [PERMANENTFLAGS (\\Seen \\*)] changed\r\n"
+			}
+		}
 		s.mu.Unlock()
+		if push != "" {
+			s.write(push)
+		}
 		s.respond(c)
 	}
 }
@@ -348,6 +375,8 @@ func (c runCfg) String() string {
 }
 
 var fingerprints = map[uint64]bool{}
+var snapshotSink int
+var hangs int
 
 func runOnce(w *hx.W, rng *rand.Rand, cfg runCfg, seed int64) {
 	desc := cfg.String()
@@ -434,7 +463,10 @@ func runOnce(w *hx.W, rng *rand.Rand, cfg runCfg, seed int64) {
 		defer close(pollDone)
 		for atomic.LoadInt32(&stop) == 0 {
 			_ = c.State()
-			_ = c.Mailbox()
+			if mb := c.Mailbox(); mb != nil {
+				// callers read the snapshot they were handed out
+				snapshotSink += int(mb.NumMessages) + len(mb.Flags) + len(mb.PermanentFlags) + len(mb.Name)
+			}
 			if caps := c.Caps(); caps != nil {
 				_ = caps.Has(imap.CapIdle)
 			}
@@ -451,6 +483,7 @@ func runOnce(w *hx.W, rng *rand.Rand, cfg runCfg, seed int64) {
 		acc.mu.Lock()
 		cur := fmt.Sprint(acc.current)
 		acc.mu.Unlock()
+		hangs++
 		viol("command-never-completes", fmt.Sprintf("submitted commands are still blocked (calls in progress: %s); submitted=%d completed=%d", cur, acc.submitted, acc.completed), map[string]interface{}{"goroutines": clientStacks(string(buf))})
 		atomic.StoreInt32(&stop, 1)
 		cEnd.Close()
@@ -523,8 +556,11 @@ func body(w *hx.W) {
 			cfg.closeAt = int64(1 + rng.Intn(cfg.workers*cfg.ops))
 		}
 		base := rng.Int63()
+		if hangs >= 3 {
+			break // enough witnesses of hanging commands
+		}
 		// the same workload under 3 yield seeds
-		for k := 0; k < 3; k++ {
+		for k := 0; k < 3 && hangs < 3; k++ {
 			runOnce(w, rng, cfg, base+int64(k))
 			w.CaseStr(fmt.Sprintf("%s|%d", cfg, base+int64(k)))
 		}
